@@ -132,7 +132,7 @@ def run(out):
     insts = [('forms-exhaustive', dict(constants=dict(base, MaxTok=3 if quick else 5, FormIdx=set(range(1, 18))))),
              ('forms-deep', dict(constants=dict(base, MaxTok=6 if quick else 8, MaxGroups=0, FormIdx={1, 5, 9, 12, 16} if quick else {1, 5, 9, 10, 12, 16}))),
              ('forms-simulated', dict(constants=dict(base, MaxTok=18 if quick else 30, MaxGroups=2, MaxReps=2, FormIdx=set(range(1, 18))),
-                                      simulate=8 if quick else 300, depth=22 if quick else 36, seed=out.seed))]
+                                      simulate=3 if quick else 60, depth=22 if quick else 36, seed=out.seed))]
     tid0 = 0
     for name, kw in insts:
         r = common.run_tlc('FormatGen', timeout=3000, heap='12g', **kw)
@@ -144,6 +144,8 @@ def run(out):
         for v in r.vectors():
             if len(v['content']) <= 120:
                 vecs.setdefault(v['abbr'], v)
+        if r.mode == 'simulate':
+            vecs = dict(common.sample(vecs.items(), 600 if quick else 15000, out.seed, key=lambda kv: repr(kv[0])))
         if r.mode == 'bfs':
             out.exhaustive = r.exhaustive if out.exhaustive is None else (out.exhaustive and r.exhaustive)
         items = []
